@@ -155,35 +155,7 @@ func runC11(c *Ctx) {
 	ruleUploadFailuresPropagated(c, "R11.4", g) // (a part whose copy failed is never sent as if it were complete)
 	copies := callsIn(g, "io.Copy")
 	c.obRF("R11.4", g, "copies-files", len(copies) == 1, "each file is copied into its part", fmt.Sprintf("%d io.Copy", len(copies)))
-	var fileLoopElem ssa.Value
-	for _, l := range sliceLoops(g, nil) {
-		if strings.Contains(typeStr(l.X.Type()), "NamedReadCloser") {
-			fileLoopElem = l.Elem
-		}
-	}
-	isOriginal := func(o Origin) bool {
-		ad, ok := derefLoad(o.V)
-		return ok && fileLoopElem != nil && ad == fileLoopElem
-	}
-	for _, cp := range copies {
-		src := cp.Common().Args[1]
-		ok, bad := allOrigins(src, isOriginal, oCallWhere(-1, "rt.NamedReader", func(nr *ssa.Call) bool {
-			okk, _ := allOrigins(nr.Call.Args[1], oCallWhere(-1, "io.MultiReader", func(mr *ssa.Call) bool {
-				elems, isLit := sliceLitElems(mr.Call.Args[0])
-				if !isLit || len(elems) != 2 {
-					return false
-				}
-				okHead, _ := allOrigins(elems[0], oCallWhere(-1, "bytes.NewReader", func(b *ssa.Call) bool {
-					_, isSl := b.Call.Args[0].(*ssa.Slice)
-					return isSl
-				}))
-				okRest, _ := allOrigins(elems[1], isOriginal)
-				return okHead && okRest
-			}))
-			return okk
-		}))
-		c.obI("R11.1", cp, "part-body-is-whole-file", ok, "the content copied into a part is the original file, or — after sniffing — the sniffed bytes followed by the REST of that file (io.MultiReader(bytes.NewReader(buf[:n]), file)): nothing is dropped however short the first read was", "origin "+describeOrigin(bad))
-	}
+	rulePartBodyIsWholeFile(c, "R11.1", g, copies)
 	c.min("R11.1", 4)
 
 	// R11.2 getBody override
@@ -226,7 +198,7 @@ func runC11(c *Ctx) {
 				}
 			}
 		}
-		c.obI("R11.2", st, "override-captures-body", gb != nil && bodyCell != nil, "the override closes over the body variable", "")
+		c.obRI("R11.2", st, "override-captures-body", gb != nil && bodyCell != nil, "the override closes over the body variable", "")
 		if gb != nil && bodyCell != nil {
 			isBody := func(v ssa.Value) bool { ad, ok := derefLoad(v); return ok && ad == ssa.Value(bodyCell) }
 			noBody := factNil(isBody, true)
@@ -640,6 +612,33 @@ func runC11(c *Ctx) {
 		uses := valueMentions(r.Results[0], mc.Params[1], 6)
 		c.obI("R11.3", r, "mangled-type-carries-boundary", uses, "every multipart content type carries the boundary", "")
 	}
+	for _, vr := range virtualReturns(mc) {
+		if len(vr.Res) != 1 {
+			continue
+		}
+		// the body written is a multipart/form-data document: that is what the header says — the operation's own media
+		// type is kept only when it is the urlencoded form type (whose requests are sent as form-data when files are there)
+		if valueMentions(vr.Res[0], mc.Params[0], 6) {
+			isLower := vOrigins(oCallWhere(-1, "strings.ToLower", func(t *ssa.Call) bool { return t.Call.Args[0] == ssa.Value(mc.Params[0]) }), oIsValue(mc.Params[0]))
+			isForm := func(cond ssa.Value, branch bool) bool {
+				if factEqString(isLower, "application/x-www-form-urlencoded", true)(cond, branch) {
+					return true
+				}
+				cnd, b := stripNot(cond, branch)
+				if call := asCall(cnd); call != nil && calleeName(&call.Call) == "strings.EqualFold" && b {
+					k0, ok0 := constString(call.Call.Args[0])
+					k1, ok1 := constString(call.Call.Args[1])
+					return ok0 && k0 == "application/x-www-form-urlencoded" && isLower(call.Call.Args[1]) || ok1 && k1 == "application/x-www-form-urlencoded" && isLower(call.Call.Args[0])
+				}
+				return false
+			}
+			c.obI("R11.3", vr.R, "multipart-body-labelled-form-data", vr.Guarded(isForm), "mangleContentType keeps the given media type only for application/x-www-form-urlencoded; every other type is labelled multipart/form-data (which is what the body is)", "another media type (multipart/related, multipart/mixed …) can be kept as the label of a form-data body")
+		} else {
+			pieces, okPc := concatPieces(vr.Res[0], 0)
+			okFD := okPc && strings.HasPrefix(pieceText(pieces), "multipart/form-data")
+			c.obI("R11.3", vr.R, "multipart-body-labelled-form-data", okFD, "a content type that does not keep the given media type starts with multipart/form-data", "")
+		}
+	}
 	c.min("R11.3", 8)
 
 	// R11.4 every field and file visited
@@ -934,4 +933,39 @@ func globalConstStrings(g *ssa.Global) ([]string, bool) {
 		out = append(out, s)
 	}
 	return out, n >= 0 && int64(len(out)) == n
+}
+
+// rulePartBodyIsWholeFile: what is copied into a file part is the original upload source, or — after sniffing — the
+// sniffed bytes followed by the REST of that source; never the sniffing buffer alone (a short first read is not the end
+// of the source: the remainder, and a failure while reading it, would go unnoticed). Shared by C11 and C12.
+func rulePartBodyIsWholeFile(c *Ctx, rule string, g *ssa.Function, copies []ssa.CallInstruction) {
+	var fileLoopElem ssa.Value
+	for _, l := range sliceLoops(g, nil) {
+		if strings.Contains(typeStr(l.X.Type()), "NamedReadCloser") {
+			fileLoopElem = l.Elem
+		}
+	}
+	isOriginal := func(o Origin) bool {
+		ad, ok := derefLoad(o.V)
+		return ok && fileLoopElem != nil && ad == fileLoopElem
+	}
+	for _, cp := range copies {
+		src := cp.Common().Args[1]
+		ok, bad := allOrigins(src, isOriginal, oCallWhere(-1, "rt.NamedReader", func(nr *ssa.Call) bool {
+			okk, _ := allOrigins(nr.Call.Args[1], oCallWhere(-1, "io.MultiReader", func(mr *ssa.Call) bool {
+				elems, isLit := sliceLitElems(mr.Call.Args[0])
+				if !isLit || len(elems) != 2 {
+					return false
+				}
+				okHead, _ := allOrigins(elems[0], oCallWhere(-1, "bytes.NewReader", func(b *ssa.Call) bool {
+					_, isSl := b.Call.Args[0].(*ssa.Slice)
+					return isSl
+				}))
+				okRest, _ := allOrigins(elems[1], isOriginal)
+				return okHead && okRest
+			}))
+			return okk
+		}))
+		c.obI(rule, cp, "part-body-is-whole-file", ok, "the content copied into a part is the original file, or — after sniffing — the sniffed bytes followed by the REST of that file (io.MultiReader(bytes.NewReader(buf[:n]), file)): nothing is dropped however short the first read was", "origin "+describeOrigin(bad))
+	}
 }
